@@ -433,6 +433,21 @@ func ruleRestore(id string) func(*Checker) {
 			b := cl.Block()
 			every := len(b.Preds) == 1 && inLoop(b) && isLoopHeader(b.Preds[0]) && firstCallIs(b, cl)
 			c.check(every, id, uname, "deferred restore covers every element", pos, "the restore call is the first action of the loop body", "an element of the deferred list can be skipped before its restore")
+			// archive order: the element index ascends (range, or i++ from 0)
+			asc := false
+			for _, a := range cl.Call.Args {
+				if u2, ok := canon(a).(*ssa.UnOp); ok && u2.Op == token.MUL {
+					if ia, ok := u2.X.(*ssa.IndexAddr); ok {
+						asc = ascendingIndex(ia.Index)
+					}
+				}
+				if ex, ok := canon(a).(*ssa.Extract); ok {
+					if _, ok := ex.Tuple.(*ssa.Next); ok {
+						asc = true
+					}
+				}
+			}
+			c.check(asc, id, uname, "deferred restore in archive order", pos, "the deferred list is visited front to back, so for a directory named twice the last entry's mode and times win", "the deferred list is not visited in archive order: for a path that appears in several directory entries an earlier entry's mode/times are applied last")
 			okE, errE := okEdgesOfCall(cl)
 			_ = okE
 			allRet := len(errE) > 0
@@ -856,4 +871,45 @@ func ruleC02Omit(c *Checker) {
 			c.check(why != "", R, wname, fmt.Sprintf("nil return %d before header write", i), p.Pos(r.Pos()), "omission on an enumerated edge: "+why, "an entry can be omitted from the slug on an edge that is neither an ignore-rule exclusion, the root, nor a non-regular kind")
 		}
 	}
+}
+
+// ascendingIndex: idx is a loop counter that starts at a constant and is
+// incremented: phi(c, idx)+k, or phi(c, phi+k).
+func ascendingIndex(idx ssa.Value) bool {
+	inc := func(v ssa.Value) (*ssa.Phi, bool) {
+		bo, ok := v.(*ssa.BinOp)
+		if !ok || bo.Op != token.ADD {
+			return nil, false
+		}
+		k, isC := constInt(bo.Y)
+		if !isC || k <= 0 {
+			return nil, false
+		}
+		ph, ok := bo.X.(*ssa.Phi)
+		return ph, ok
+	}
+	check := func(ph *ssa.Phi, next ssa.Value) bool {
+		hasConst, hasNext := false, false
+		for _, e := range ph.Edges {
+			if _, ok := constInt(e); ok {
+				hasConst = true
+			} else if e == next {
+				hasNext = true
+			} else {
+				return false
+			}
+		}
+		return hasConst && hasNext
+	}
+	if ph, ok := inc(idx); ok {
+		return check(ph, idx) // rangeindex: phi(-1, idx) + 1
+	}
+	if ph, ok := idx.(*ssa.Phi); ok {
+		for _, e := range ph.Edges {
+			if p2, ok := inc(e); ok && p2 == ph {
+				return check(ph, e) // i := 0; …; i++
+			}
+		}
+	}
+	return false
 }
